@@ -499,11 +499,12 @@ func StreamMatrix() *m.Design {
 		Result:  m.UserRef("Item"),
 		HTTP:    &m.HTTPEndpoint{Routes: get("/streams/items"), Query: []m.Mapping{{Attr: "n"}}}}
 	ticks := &m.Method{Name: "ticks", Streaming: "result", Result: i64(), HTTP: &m.HTTPEndpoint{Routes: get("/streams/ticks")}}
+	edits := &m.Method{Name: "edits", Streaming: "bidirectional", StreamingPayload: str(), Result: m.UserRef("Item"), HTTP: &m.HTTPEndpoint{Routes: get("/streams/edits")}}
 	plain := &m.Method{Name: "plain", Payload: obj(fld("id", str(), true)), Result: obj(fld("ok", m.Prim(m.Boolean), true)),
 		HTTP: &m.HTTPEndpoint{Routes: get("/streams/{id}/plain"), Path: []m.Mapping{{Attr: "id"}}}}
 	return &m.Design{API: m.API{Name: "streams", Title: "Stream matrix"},
 		Types:    []*m.UserType{event, sample, item},
-		Services: []*m.Service{{Name: "streams", HasHTTP: true, Methods: []*m.Method{watch, collect, chat, sums, relay, items, ticks, plain}}},
+		Services: []*m.Service{{Name: "streams", HasHTTP: true, Methods: []*m.Method{watch, collect, chat, sums, relay, items, ticks, edits, plain}}},
 		Features: []string{"fixed-design:stream-matrix", "streaming-result", "streaming-payload", "streaming-bidirectional", "streamed-result-type-with-views"}}
 }
 
